@@ -236,6 +236,31 @@ def phase_b(stmts):
     return stmts
 
 
+def _strip_tail_continue(block):
+    """a `continue` that ends a loop body (also at the end of its last if/else) does nothing"""
+    if not block:
+        return block
+    last = block[-1]
+    if isinstance(last, ast.Continue):
+        return block[:-1] or [ast.Pass()]
+    if isinstance(last, ast.If):
+        last.body = _strip_tail_continue(last.body)
+        last.orelse = [x for x in _strip_tail_continue(last.orelse) if not isinstance(x, ast.Pass)]
+        if all(isinstance(x, ast.Pass) for x in last.body):
+            if not last.orelse:
+                return block[:-1] + ([] if not any(isinstance(n, ast.Call) for n in ast.walk(last.test)) else [ast.Expr(value=last.test)]) \
+                    or [ast.Pass()]
+            last.test, last.body, last.orelse = ast.UnaryOp(op=ast.Not(), operand=last.test), last.orelse, []
+    return block
+
+
+def phase_b2(stmts):
+    for st in stmts:
+        if isinstance(st, (ast.For, ast.While, ast.AsyncFor)):
+            st.body = _strip_tail_continue(st.body)
+    return stmts
+
+
 def _single_store(block):
     """block == [key = value] -> (key, target node, value)"""
     if len(block) == 1 and isinstance(block[0], ast.Assign) and len(block[0].targets) == 1:
@@ -516,7 +541,7 @@ def inline_stmt(st, cx: _Cx):
         body = _single_exit(body, mk)
         new = pre + body
         # the spliced code takes part in the passes of the caller's block
-        return map_blocks(new, lambda b: phase_c(phase_b(b)))
+        return map_blocks(new, lambda b: phase_c(phase_b2(phase_b(b))))
     except NotInlinable:
         return None
 
@@ -524,6 +549,7 @@ def inline_stmt(st, cx: _Cx):
 def _normalise_body(body, cx: _Cx):
     body = map_blocks(body, lambda b: phase_a(b, cx))
     body = map_blocks(body, phase_b)
+    body = map_blocks(body, phase_b2)
     body = map_blocks(body, phase_c)
     body = [_Canon().visit(s) for s in body]
     return body
@@ -573,9 +599,8 @@ class Resolver:
         if k is not None:
             self.binds.setdefault(k, []).append((pos, path, kind, value))
         if isinstance(t, (ast.Subscript, ast.Attribute)):
+            # `x[k] = ..` changes what x holds; `a.b = ..` changes a.b (and a.b.c), not a's other attributes
             self.stores.append((pos, u(t.value) if isinstance(t, ast.Subscript) else u(t)))
-            if isinstance(t, ast.Attribute):
-                self.stores.append((pos, u(t.value)))
 
     def _mark(self, node, pos, path):
         for n in own_nodes(node):
@@ -847,3 +872,70 @@ class Fn:
 
     def rebinds(self, name: str) -> bool:
         return any(b[2] != "param" for b in self.res.binds.get(name, []))
+
+
+# ------------------------------------------------------------------------------------------ self test
+# `python -m translator.c07_norm`: pairs of equivalent shapes must resolve to the same text, look-alikes must not
+
+_SELFTEST = [
+    # (same?, anchor call name, source A, source B)
+    (True, "sink", "def f(a, b):\n    x = _h(a, b)\n    sink(x)\ndef _h(p, q):\n    '''doc'''\n    r = p + q\n    return r * 2\n",
+     "def f(a, b):\n    sink((a + b) * 2)\n"),
+    (False, "sink", "def f(a, b):\n    x = _h(a)\n    sink(x)\ndef _h(p, q=0):\n    return (p + q) * 2\n",
+     "def f(a, b):\n    sink((a + b) * 2)\n"),
+    (True, "sink", "def f(a):\n    cur = a.items\n    sink(cur)\n", "def f(a):\n    sink(a.items)\n"),
+    (False, "sink", "def f(a):\n    cur = a\n    a = g(a)\n    sink(cur)\n", "def f(a):\n    a = g(a)\n    sink(a)\n"),
+    (False, "sink", "def f(a):\n    cur = a.items\n    a.items = []\n    sink(cur)\n", "def f(a):\n    a.items = []\n    sink(a.items)\n"),
+    (True, "sink", "def f(a):\n    if a is None:\n        return 0\n    x = g(a)\n    sink(x)\n",
+     "def f(a):\n    if a is not None:\n        x = g(a)\n        sink(x)\n    else:\n        return 0\n"),
+    (True, "sink", "def f(a, c):\n    if c:\n        x = 1\n    else:\n        x = g(a)\n    sink(x)\n",
+     "def f(a, c):\n    x = 1 if c else g(a)\n    sink(x)\n"),
+    (True, "sink", "def f(a, c):\n    if not c:\n        x = g(a)\n    else:\n        x = 1\n    sink(x)\n",
+     "def f(a, c):\n    sink(1 if c else g(a))\n"),
+    (False, "sink", "def f(a, c):\n    if not c:\n        x = 1\n    else:\n        x = g(a)\n    sink(x)\n",
+     "def f(a, c):\n    sink(1 if c else g(a))\n"),
+    (True, "sink", "def f(a, c):\n    x = None\n    if c:\n        x = g(a)\n    sink(x)\n", "def f(a, c):\n    sink(g(a) if c else None)\n"),
+    (True, "sink", "def f(ks, vs):\n    d = {}\n    for k, v in zip(ks, vs, strict=False):\n        d.update({k: v})\n    sink(d)\n",
+     "def f(ks, vs):\n    sink(dict(zip(ks, vs)))\n"),
+    (True, "sink", "def f(ks, vs):\n    d = {k: v for k, v in zip(ks, vs)}\n    sink(d)\n", "def f(ks, vs):\n    sink(dict(zip(ks, vs)))\n"),
+    (False, "sink", "def f(ks, vs):\n    d = {}\n    for k, v in zip(ks, vs):\n        d[v] = k\n    sink(d)\n",
+     "def f(ks, vs):\n    sink(dict(zip(ks, vs)))\n"),
+    (True, "sink", "def f(xs):\n    out = []\n    for x in xs:\n        if x.on:\n            out.append(x.v)\n    sink(out)\n",
+     "def f(xs):\n    sink([x.v for x in xs if x.on])\n"),
+    (True, "sink", "def f(xs):\n    sink(list(zip(count(), xs)))\n", "def f(xs):\n    sink(list(enumerate(xs)))\n"),
+    (True, "sink", "def f(x, lo, hi):\n    sink(lo <= x <= hi)\n", "def f(x, lo, hi):\n    sink(lo <= x and x <= hi)\n"),
+    (True, "sink", "def f(m, a):\n    match m:\n        case 'p':\n            x = 1\n        case 's':\n            x = 2\n        case _:\n            x = g(a)\n    sink(x)\n",
+     "def f(m, a):\n    if m == 'p':\n        x = 1\n    elif m == 's':\n        x = 2\n    else:\n        x = g(a)\n    sink(x)\n"),
+    (True, "BODY", "def f(xs):\n    for x in xs:\n        if not x.on:\n            continue\n        sink(x)\n",
+     "def f(xs):\n    for x in xs:\n        if x.on:\n            sink(x)\n"),
+    (False, "BODY", "def f(xs):\n    for x in xs:\n        if x.on:\n            continue\n        sink(x)\n",
+     "def f(xs):\n    for x in xs:\n        if x.on:\n            sink(x)\n"),
+    (True, "sink", "LIMIT = 7\ndef f(a):\n    sink(a, LIMIT)\n", "def f(a):\n    sink(a, 7)\n"),
+    (True, "sink", "def f(a):\n    try:\n        x = g(a)\n    except E:\n        raise\n    else:\n        return x\n    sink(0)\n",
+     "def f(a):\n    try:\n        x = g(a)\n        return x\n    except E:\n        raise\n    sink(0)\n"),
+    (True, "sink", "def f(a):\n    logging.info('x %s', a)\n    y: int = g(a)\n    '''note'''\n    sink(y)\n", "def f(a):\n    sink(g(a))\n"),
+]
+
+
+def selftest() -> int:
+    bad = 0
+    for k, (same, anchor, a, b) in enumerate(_SELFTEST):
+        texts = []
+        for src in (a, b):
+            mod = Mod(ast.parse(src))
+            f = Fn(mod, mod.funcs["f"], None, ())
+            if anchor == "BODY":
+                texts.append("\n".join(u(x) for x in f.node.body))
+                continue
+            cs = f.calls(lambda n: n == anchor)
+            rets = [u(f.R(n.value)) for n in ast.walk(f.node) if isinstance(n, ast.Return) and n.value is not None and hasattr(n, "_pos")]
+            texts.append(([u(c[1]) for c in cs], rets))
+        ok = (texts[0] == texts[1]) == same
+        if not ok:
+            bad += 1
+        print(("ok  " if ok else "FAIL"), k, "expected", "same" if same else "different", "|", texts[0], "|", texts[1])
+    return bad
+
+
+if __name__ == "__main__":
+    raise SystemExit(1 if selftest() else 0)
